@@ -12,7 +12,9 @@ Driver for C11.
 Ops: `clock <ms>` · `load wu <f:T> <periodSec> <coldFactor> <statIntervalMs>` ·
 `load ma <lowThr> <highThr> <lowMark> <highMark> <statIntervalMs>` (a later `load` in the same case *re*loads the
 resource's rule) · `mem <bytes|-1>` ·
-`req <n> <batch>` (n sequential `Entry`+`Exit` at this instant ⇒ number admitted) · `sum` (pass sum of the
+`req <n> <batch>` (n sequential `Entry`+`Exit` at this instant ⇒ number admitted) · a trailing `q=<maxQueueingMs>` on a `load`
+selects ControlBehavior Throttling, exercised with `probe <batch>` ⇒ `pass` / `wait <ns>` / `block` · `soak <lowT> <highT> <lowMark>
+<highMark> <requests> <flippers>` ⇒ `cap=ok` (concurrent memory-gauge updates; verdict only) · `sum` (pass sum of the
 resource's default 1 s view).
 -/
 namespace Sentinel.Drv.C11
@@ -48,15 +50,35 @@ def viewOf (iv : Nat) : Option (Nat × Nat) :=
 
 structure St (α : Type) where
   sys : Sys α := {}
-  now : Nat := 0
+  now : Nat := 0          -- clock in ms (= ns / 10^6)
+  ns : Nat := 0           -- clock in ns (a throttled entry sleeps, i.e. advances it by its wait)
   loaded : Bool := false
 
+/-- a trailing `q=<maxQueueingTimeMs>` on a `load` op selects `ControlBehavior = Throttling` -/
+def splitQ (ts : List String) : Option (List String × Option Nat) :=
+  match ts.getLast? with
+  | some l => if l.startsWith "q=" then (l.drop 2).toString.toNat?.map fun q => (ts.dropLast, some q) else some (ts, none)
+  | none => some (ts, none)
+
+def showRes : Throttle.Res → String
+  | .pass => "pass" | .wait w => s!"wait {w}" | .block => "block"
+
 def step {α} [Carrier α] (parseT : String → Option α) (neg : α → Bool)
-    (s : St α) (ts : List String) (_ : String) : St α × Option String :=
+    (s : St α) (ts0 : List String) (_ : String) : St α × Option String :=
+  match splitQ ts0 with
+  | none => (s, some "bad-op")
+  | some (ts, q) =>
   match ts with
   | ["clock", t] => match t.toNat? with
-      | some t => if s.now ≤ t then ({ s with now := t }, none) else (s, some "bad-op")
+      | some t => if s.ns ≤ t * 1000000 then ({ s with now := t, ns := t * 1000000 }, none) else (s, some "bad-op")
       | none => (s, some "bad-op")
+  | ["probe", b] => match b.toNat? with
+      | some b =>
+        if s.sys.behav.isNone || s.sys.rule.isNone then (s, some "bad-op") else
+        let (sys', r, after) := probe s.sys s.ns b
+        ({ s with sys := sys', ns := after, now := after / 1000000 }, some (showRes r))
+      | none => (s, some "bad-op")
+  | ["soak", _, _, _, _, _, _] => (s, some "cap=ok")
   | ["load", "wu", T, p, cf, iv] => match parseT T, p.toNat?, cf.toNat?, iv.toNat? with
       | some T, some p, some cf, some iv =>
         match viewOf iv with
@@ -64,7 +86,7 @@ def step {α} [Carrier α] (parseT : String → Option α) (neg : α → Bool)
         | some (sc, Iv) =>
           -- `IsValidRule`: negative threshold, zero period, cold factor 1 are rejected (the rule is dropped)
           let valid := !(neg T || p = 0 || cf = 1)
-          ({ s with sys := loadRule s.sys s.now (.wu T p cf iv) valid sc Iv, loaded := true }, some (if valid then "ok 1" else "ok 0"))
+          ({ s with sys := loadRule s.sys s.now (.wu T p cf iv) q valid sc Iv, loaded := true }, some (if valid then "ok 1" else "ok 0"))
       | _, _, _, _ => (s, some "bad-op")
   | ["load", "ma", lt, ht, lm, hm, iv] => match lt.toInt?, ht.toInt?, lm.toInt?, hm.toInt?, iv.toNat? with
       | some lt, some ht, some lm, some hm, some iv =>
@@ -73,13 +95,14 @@ def step {α} [Carrier α] (parseT : String → Option α) (neg : α → Bool)
         | some (sc, Iv) =>
           let m : MemCfg := { lowT := lt, highT := ht, lowM := lm, highM := hm }
           let valid := m.valid totalMem
-          ({ s with sys := loadRule s.sys s.now (.ma m iv) valid sc Iv, loaded := true }, some (if valid then "ok 1" else "ok 0"))
+          ({ s with sys := loadRule s.sys s.now (.ma m iv) q valid sc Iv, loaded := true }, some (if valid then "ok 1" else "ok 0"))
       | _, _, _, _, _ => (s, some "bad-op")
   | ["mem", x] => match x.toInt? with
       | some x => ({ s with sys := { s.sys with mem := x } }, none)
       | none => (s, some "bad-op")
   | ["req", n, b] => match n.toNat?, b.toNat? with
       | some n, some b =>
+        if s.sys.behav.isSome && s.sys.rule.isSome then (s, some "bad-op") else    -- throttled rules are exercised with `probe`
         let (sys', k) := reqs s.sys s.now b n
         ({ s with sys := sys' }, some (toString k))
       | _, _ => (s, some "bad-op")
@@ -93,6 +116,8 @@ def step {α} [Carrier α] (parseT : String → Option α) (neg : α → Bool)
 structure OSt where
   sys : Sys Rat := {}
   now : Nat := 0
+  ns : Nat := 0
+  lastAdm : Int := 0                    -- latest scheduled pass time (ns) of a throttled request admitted under the rule in force
   loaded : Bool := false
   period : Nat := 0
   lastPass : Option Nat := none        -- time of the last admitted request
@@ -174,12 +199,62 @@ def oracleReq (s : OSt) (n b k : Nat) : OSt × String :=
         else "ok"
       ({ commit tk with sat := sat }, r)
 
-def ostep (s : OSt) (ts : List String) (line : String) : OSt × Option String :=
+/-- a throttled probe judged against the exact threshold of the rule in force: `threshold ≤ 0` or `batch > threshold`
+    must block; `batch ≤ threshold` after an idle time longer than the pacing interval must pass at once; a wait never
+    exceeds the queueing limit -/
+def oracleProbe (s : OSt) (b : Nat) (res : String) : OSt × String :=
+  let sys0 := s.sys.touch s.now
+  match sys0.arr, sys0.rule, sys0.behav with
+  | some a, some (cl, _, Iv), some maxQ =>
+    let (tk, thr) := threshold sys0 a s.now
+    let rt := toks res
+    let w : Option Nat := match rt with
+      | ["pass"] => some 0
+      | ["wait", w] => w.toNat?
+      | _ => none
+    let wellFormed := w.isSome || res = "block"
+    let after := s.ns + w.getD 0
+    let a' := (addAt a (after / 1000000) (if w.isSome then evBucket .pass b else evBucket .block b)).1
+    let s' := { s with sys := { sys0 with arr := some a', tok := tk }, ns := after, now := after / 1000000,
+                       lastAdm := if w.isSome then ((s.ns : Int) + (w.getD 0 : Nat)) else s.lastAdm }
+    let nanRegion := match cl with | .warmup c => Known.degenerateNaN c | _ => false
+    let verdict :=
+      if !wellFormed then "bad not-an-outcome " ++ res
+      else if nanRegion then "?"
+      else match thr.getD none with
+      | none => "?"
+      | some t =>
+        if t ≤ 0 then (if res = "block" then "ok" else "bad admitted-with-nonpositive-threshold")
+        else if t * (1 + eps) < (b : Rat) then (if res = "block" then "ok" else "bad batch-above-threshold-admitted")
+        else if (b : Rat) ≤ t * (1 - eps) then
+          let ivmax : Int := ((b : Rat) / (t * (1 - eps)) * ((Iv * 1000000 : Nat) : Rat)).ceil + 1
+          if s.lastAdm + ivmax ≤ (s.ns : Int) then
+            (if res = "pass" then "ok" else "bad not-passed-after-idle " ++ res)
+          else match w with
+            | some w => if w ≤ maxQ * 1000000 then "ok" else "bad wait-above-queueing-limit"
+            | none => "ok"
+        else "?"
+    (s', verdict)
+  | _, _, _ => (s, "?")
+
+def ostep (s : OSt) (ts0 : List String) (line : String) : OSt × Option String :=
   let res := (resPart line).getD ""
+  match splitQ ts0 with
+  | none => (s, some "bad-op")
+  | some (ts, q) =>
   match ts with
   | ["clock", t] => match t.toNat? with
-      | some t => if s.now ≤ t then ({ s with now := t }, none) else (s, some "bad-op")
+      | some t => if s.ns ≤ t * 1000000 then ({ s with now := t, ns := t * 1000000 }, none) else (s, some "bad-op")
       | none => (s, some "bad-op")
+  | ["probe", b] => match b.toNat? with
+      | some b =>
+        if s.sys.behav.isNone || s.sys.rule.isNone then (s, some "bad-op") else
+        let (s', r) := oracleProbe s b res; (s', some r)
+      | none => (s, some "bad-op")
+  | ["soak", _, _, _, _, _, _] =>
+      -- concurrent memory-gauge updates against sequential requests: every threshold the calculator can return lies in
+      -- [highT, lowT] (`finite_nonneg`), so one window never admits more than `LowMemUsageThreshold` (`adaptive_admission_under_cap`)
+      (s, some (if res = "cap=ok" then "ok" else "bad soak " ++ res))
   | ["load", "wu", T, p, cf, iv] => match parseRat? T, p.toNat?, cf.toNat?, iv.toNat? with
       | some T, some p, some cf, some iv =>
         match viewOf iv with
@@ -187,7 +262,9 @@ def ostep (s : OSt) (ts : List String) (line : String) : OSt × Option String :=
         | some (sc, Iv) =>
           let valid := !(decide (T < 0) || p = 0 || cf = 1)
           -- the claims are judged against the latest loaded rule
-          let s' := { s with sys := loadRule s.sys s.now (.wu T p cf iv) valid sc Iv, loaded := true, period := p, sat := none }
+          let sys' := loadRule s.sys s.now (.wu T p cf iv) q valid sc Iv
+          let kept := valid && (match s.sys.bound with | some b => b.same (.wu T p cf iv) && s.sys.behav == q | none => false)
+          let s' := { s with sys := sys', loaded := true, period := p, sat := none, lastAdm := if kept then s.lastAdm else 0 }
           (s', some (if res = (if valid then "ok 1" else "ok 0") then "ok" else "bad rule-validity"))
       | _, _, _, _ => (s, some "bad-op")
   | ["load", "ma", lt, ht, lm, hm, iv] => match lt.toInt?, ht.toInt?, lm.toInt?, hm.toInt?, iv.toNat? with
@@ -197,14 +274,18 @@ def ostep (s : OSt) (ts : List String) (line : String) : OSt × Option String :=
         | some (sc, Iv) =>
           let m : MemCfg := { lowT := lt, highT := ht, lowM := lm, highM := hm }
           let valid := m.valid totalMem
-          let s' := { s with sys := loadRule s.sys s.now (.ma m iv) valid sc Iv, loaded := true, sat := none }
+          let sys' := loadRule s.sys s.now (.ma m iv) q valid sc Iv
+          let kept := valid && (match s.sys.bound with | some b => b.same (.ma m iv) && s.sys.behav == q | none => false)
+          let s' := { s with sys := sys', loaded := true, sat := none, lastAdm := if kept then s.lastAdm else 0 }
           (s', some (if res = (if valid then "ok 1" else "ok 0") then "ok" else "bad rule-validity"))
       | _, _, _, _, _ => (s, some "bad-op")
   | ["mem", x] => match x.toInt? with
       | some x => ({ s with sys := { s.sys with mem := x } }, none)
       | none => (s, some "bad-op")
   | ["req", n, b] => match n.toNat?, b.toNat? with
-      | some n, some b => match res.toNat? with
+      | some n, some b =>
+        if s.sys.behav.isSome && s.sys.rule.isSome then (s, some "bad-op") else
+        match res.toNat? with
         | some k => let (s', r) := oracleReq s n b k; (s', some r)
         | none => (s, some ("bad not-a-count " ++ res))
       | _, _ => (s, some "bad-op")
